@@ -15,6 +15,7 @@ package keyvalue
 //@ interface FileRecord.Size() (n int64)
 //@   deterministic
 //@   pure
+//@   ensures "nonneg" n >= 0 && n <= 1<<62
 //@ interface FileRecord.Mode() (m hackpadfs.FileMode)
 //@   deterministic
 //@   pure
@@ -168,3 +169,441 @@ package keyvalue
 //@ interface TransactionStore.Transaction(options TransactionOptions) (txn Transaction, err error)
 //@   deterministic
 //@   ensures "result" implies(err == nil, txn != nil)
+
+// ---- lazily evaluated record view of a handle (record.go) ----
+
+//@ spec roInv(r *runOnceFileRecord) := r != nil && r.record != nil && (r.dataDone == 0 || r.dataDone == 1) && iff(r.dataDone == 1, oncedone(r.dataOnce)) &&
+//@        implies(r.dataDone == 1 && r.dataErr == nil, r.data != nil && blob.blobOK(r.data))
+//@ spec recDataBlob(r *runOnceFileRecord) := ret("keyvalue.(FileRecord).Data", 0, r.record)
+//@ spec recDataErr(r *runOnceFileRecord) := ret("keyvalue.(FileRecord).Data", 1, r.record)
+//@ spec curBlob(r *runOnceFileRecord) := ite(r.dataDone == 1, payload(r.data), payload(recDataBlob(r)))
+//@ spec curBlobTag(r *runOnceFileRecord) := ite(r.dataDone == 1, tag(r.data), tag(recDataBlob(r)))
+
+//@ func (r *runOnceFileRecord) Data() (b blob.Blob, err error)
+//@   props C02 C14 C17
+//@   requires roInv(r)
+//@   requires "blob-ok" implies(r.dataDone == 0 && recDataErr(r) == nil, blob.blobOK(recDataBlob(r)))
+//@   modifies r.data, r.dataErr, r.dataDone, oncedone(r.dataOnce), world()
+//@   ensures "first" implies(!old(oncedone(r.dataOnce)), b == old(recDataBlob(r)) && err == old(recDataErr(r)) && implies(err != nil, b == nil || true) &&
+//@                     world() == old(worldAfter("keyvalue.(FileRecord).Data", r.record)))
+//@   ensures "cached" implies(old(oncedone(r.dataOnce)), b == old(r.data) && err == old(r.dataErr) && world() == old(world()))
+//@   ensures "state" r.data == b && r.dataErr == err && r.dataDone == 1 && oncedone(r.dataOnce) && r.record == old(r.record)
+//@   nopanic
+
+//@ spec liveSize(r *runOnceFileRecord) := ite(r.dataDone == 1 && r.dataErr == nil && r.data != nil, blob.blobLen(r.data), ret("keyvalue.(FileRecord).Size", 0, r.record))
+
+//@ func (r *runOnceFileRecord) Size() (n int64)
+//@   props C02 C14 C17
+//@   requires roInv(r)
+//@   ensures "live" n == liveSize(r)
+//@   ensures "range" 0 <= n && n <= 1<<62
+//@   pure
+//@   nopanic
+
+//@ spec modeOf(r *runOnceFileRecord) := ite(oncedone(r.modeOnce), r.mode, ret("keyvalue.(FileRecord).Mode", 0, r.record))
+
+//@ func (r *runOnceFileRecord) Mode() (m hackpadfs.FileMode)
+//@   props C02 C01
+//@   requires r != nil && r.record != nil
+//@   modifies r.mode, oncedone(r.modeOnce)
+//@   ensures "mode" m == old(modeOf(r)) && r.mode == m && oncedone(r.modeOnce)
+//@   nopanic
+
+//@ spec mtimeOf(r *runOnceFileRecord) := ite(oncedone(r.modTimeOnce), r.modTime, ret("keyvalue.(FileRecord).ModTime", 0, r.record))
+
+//@ func (r *runOnceFileRecord) ModTime() (t time.Time)
+//@   props C01
+//@   requires r != nil && r.record != nil
+//@   modifies r.modTime, oncedone(r.modTimeOnce)
+//@   ensures "mtime" t == old(mtimeOf(r)) && r.modTime == t && oncedone(r.modTimeOnce)
+//@   nopanic
+
+//@ func (r *runOnceFileRecord) Sys() (v interface{})
+//@   requires r != nil && r.record != nil
+//@   modifies r.sys, oncedone(r.sysOnce)
+//@   nopanic
+
+//@ spec dirNamesOf(r *runOnceFileRecord) := ret("keyvalue.(FileRecord).ReadDirNames", 0, r.record)
+//@ spec dirNamesErrOf(r *runOnceFileRecord) := ret("keyvalue.(FileRecord).ReadDirNames", 1, r.record)
+
+//@ func (r *runOnceFileRecord) ReadDirNames() (names []string, err error)
+//@   props C16 C14
+//@   requires r != nil && r.record != nil
+//@   modifies r.dirNames, r.dirNamesErr, oncedone(r.dirNamesOnce), world()
+//@   ensures "first" implies(!old(oncedone(r.dirNamesOnce)), names == old(dirNamesOf(r)) && err == old(dirNamesErrOf(r)) &&
+//@                     world() == old(worldAfter("keyvalue.(FileRecord).ReadDirNames", r.record)))
+//@   ensures "cached" implies(old(oncedone(r.dirNamesOnce)), names == old(r.dirNames) && err == old(r.dirNamesErr) && world() == old(world()))
+//@   ensures "state" r.dirNames == names && r.dirNamesErr == err && oncedone(r.dirNamesOnce)
+//@   nopanic
+
+//@ func (f *fileData) Mode() (m hackpadfs.FileMode)
+//@   props C02 C01
+//@   requires f != nil && f.record != nil
+//@   modifies f.mode, oncedone(f.modeOnce)
+//@   ensures "override" implies(f.modeOverride != nil, m == *f.modeOverride)
+//@   ensures "record" implies(f.modeOverride == nil, m == old(modeOf(f.runOnceFileRecord)))
+//@   nopanic
+
+// ---- file handles (file.go) ----
+
+//@ spec fRec(f *file) := f.fileData.runOnceFileRecord
+//@ spec fileInv(f *file) := f != nil && f.fileData != nil && f.fileData.fs != nil && roInv(fRec(f)) && f.offset >= 0
+//@ spec hData(f *file) := ite(fRec(f).dataDone == 1, fRec(f).data, recDataBlob(fRec(f)))
+//@ spec hDataErr(f *file) := ite(fRec(f).dataDone == 1, fRec(f).dataErr, recDataErr(fRec(f)))
+//@ spec hDataOK(f *file) := implies(hDataErr(f) == nil, blob.blobOK(hData(f)) && !blob.blobLocked(hData(f)) && isType(hData(f), *blob.Bytes))
+//@ spec closedError(err error, f *file) := isPathError(err) && errIs(err, hackpadfs.ErrClosed) && pathOf(err) == f.path
+
+//@ func (f *file) closedErr(op string) (err error)
+//@   requires f != nil && f.fileData != nil
+//@   ensures "closed-error" closedError(err, f) && opOf(err) == op && fresh(err)
+//@   nopanic
+
+//@ func (f *file) Close() (err error)
+//@   props C17 C02
+//@   requires f != nil && f.fileData != nil
+//@   modifies f.closed
+//@   ensures "first" implies(!old(f.closed), err == nil && f.closed)
+//@   ensures "again" implies(old(f.closed), closedError(err, f) && f.closed)
+//@   nopanic
+
+//@ func (f *file) ReadBlobAt(length int, off int64) (b blob.Blob, n int, err error)
+//@   props C02 C17 C14
+//@   requires fileInv(f) && hDataOK(f)
+//@   modifies fRec(f).data, fRec(f).dataErr, fRec(f).dataDone, oncedone(fRec(f).dataOnce), world()
+//@   ensures "closed" implies(f.closed, b == nil && n == 0 && closedError(err, f) && world() == old(world()))
+//@   ensures "neg" implies(!f.closed && off < 0, b == nil && n == 0 && err != nil && err != io.EOF)
+//@   ensures "data-error" implies(!f.closed && off >= 0 && old(hDataErr(f)) != nil, b == nil && n == 0 && err == old(hDataErr(f)))
+//@   ensures "past-end" implies(!f.closed && off >= 0 && old(hDataErr(f)) == nil && off >= blob.blobLen(old(hData(f))), b == nil && n == 0 && err == io.EOF)
+//@   ensures "count" implies(!f.closed && off >= 0 && old(hDataErr(f)) == nil && off < blob.blobLen(old(hData(f))) && length >= 0,
+//@                     n == min(length, blob.blobLen(old(hData(f))) - off) && blob.isViewOf(b, old(hData(f)), off, off + n))
+//@   ensures "eof" implies(!f.closed && off >= 0 && old(hDataErr(f)) == nil && off < blob.blobLen(old(hData(f))) && length >= 0,
+//@                     iff(err == io.EOF, off + n == blob.blobLen(old(hData(f)))) && (err == nil || err == io.EOF))
+//@   ensures "inv" fileInv(f) && hDataOK(f) && implies(!f.closed && off >= 0, hData(f) == old(hData(f)) && hDataErr(f) == old(hDataErr(f)))
+//@   ensures "n-bounds" 0 <= n && implies(length >= 0, n <= length) && implies(length < 0 || b == nil, n == 0) && implies(n > 0, off + n <= 1<<62)
+//@   nopanic
+
+//@ spec readOK(f *file, off int64) := !f.closed && off >= 0 && hDataErr(f) == nil
+
+//@ func (f *file) ReadAt(p []byte, off int64) (n int, err error)
+//@   props C02 C17 C14
+//@   requires fileInv(f) && hDataOK(f)
+//@   modifies fRec(f).data, fRec(f).dataErr, fRec(f).dataDone, oncedone(fRec(f).dataOnce), world(), elems(p)
+//@   ensures "closed" implies(f.closed, n == 0 && closedError(err, f))
+//@   ensures "neg" implies(!f.closed && off < 0, n == 0 && err != nil && err != io.EOF)
+//@   ensures "data-error" implies(!f.closed && off >= 0 && old(hDataErr(f)) != nil, n == 0 && err == old(hDataErr(f)))
+//@   ensures "past-end" implies(old(readOK(f, off)) && off >= blob.blobLen(old(hData(f))), n == 0 && err == io.EOF)
+//@   ensures "count" implies(old(readOK(f, off)) && off < blob.blobLen(old(hData(f))), n == min(len(p), blob.blobLen(old(hData(f))) - off))
+//@   ensures "bytes" implies(old(readOK(f, off)) && off < blob.blobLen(old(hData(f))), forall(i, 0, n, p[i] == old(blob.blobAt(hData(f), off + i))))
+//@   ensures "rest-untouched" forall(k, int, implies(!(off(p) <= k && k < off(p) + n), raw(p, k) == old(raw(p, k))))
+//@   ensures "eof" implies(old(readOK(f, off)) && off < blob.blobLen(old(hData(f))), iff(err == io.EOF, off + n == blob.blobLen(old(hData(f)))) && (err == nil || err == io.EOF))
+//@   ensures "short-read-has-error" implies(n < len(p), err != nil)
+//@   ensures "inv" fileInv(f) && hDataOK(f) && f.offset == old(f.offset)
+//@   nopanic
+
+//@ func (f *file) Read(p []byte) (n int, err error)
+//@   props C02 C17 C14
+//@   requires fileInv(f) && hDataOK(f)
+//@   modifies fRec(f).data, fRec(f).dataErr, fRec(f).dataDone, oncedone(fRec(f).dataOnce), world(), elems(p), f.offset
+//@   ensures "closed" implies(f.closed, n == 0 && closedError(err, f) && f.offset == old(f.offset))
+//@   ensures "data-error" implies(!f.closed && old(hDataErr(f)) != nil, n == 0 && err == old(hDataErr(f)))
+//@   ensures "past-end" implies(old(readOK(f, f.offset)) && old(f.offset) >= blob.blobLen(old(hData(f))), n == 0 && err == io.EOF)
+//@   ensures "count" implies(old(readOK(f, f.offset)) && old(f.offset) < blob.blobLen(old(hData(f))), n == min(len(p), blob.blobLen(old(hData(f))) - old(f.offset)))
+//@   ensures "bytes" implies(old(readOK(f, f.offset)) && old(f.offset) < blob.blobLen(old(hData(f))), forall(i, 0, n, p[i] == old(blob.blobAt(hData(f), f.offset + i))))
+//@   ensures "offset" f.offset == old(f.offset) + n && n >= 0
+//@   ensures "eof-only-at-end" implies(err == io.EOF && old(readOK(f, f.offset)), f.offset >= blob.blobLen(old(hData(f))))
+//@   ensures "inv" fileInv(f) && hDataOK(f)
+//@   nopanic
+
+//@ func (f *file) ReadBlob(length int) (b blob.Blob, n int, err error)
+//@   props C02 C17
+//@   requires fileInv(f) && hDataOK(f)
+//@   modifies fRec(f).data, fRec(f).dataErr, fRec(f).dataDone, oncedone(fRec(f).dataOnce), world(), f.offset
+//@   ensures "closed" implies(f.closed, b == nil && n == 0 && closedError(err, f) && f.offset == old(f.offset))
+//@   ensures "count" implies(old(readOK(f, f.offset)) && old(f.offset) < blob.blobLen(old(hData(f))) && length >= 0,
+//@                     n == min(length, blob.blobLen(old(hData(f))) - old(f.offset)) && blob.isViewOf(b, old(hData(f)), old(f.offset), old(f.offset) + n))
+//@   ensures "offset" f.offset == old(f.offset) + n && n >= 0
+//@   ensures "inv" fileInv(f) && hDataOK(f)
+//@   nopanic
+
+//@ spec seekBase(f *file, whence int) := ite(whence == 0, 0, ite(whence == 1, f.offset, liveSize(fRec(f))))
+
+//@ func (f *file) Seek(offset int64, whence int) (r int64, err error)
+//@   props C02 C17
+//@   requires fileInv(f)
+//@   modifies f.offset
+//@   ensures "closed" implies(f.closed, r == 0 && closedError(err, f) && f.offset == old(f.offset))
+//@   ensures "whence" implies(!f.closed && whence != 0 && whence != 1 && whence != 2, err != nil)
+//@   ensures "value" implies(err == nil, r == old(seekBase(f, whence)) + offset && r >= 0 && f.offset == r)
+//@   ensures "neg" implies(!f.closed && (whence == 0 || whence == 1 || whence == 2) && old(seekBase(f, whence)) + offset < 0, err != nil)
+//@   ensures "accepts" implies(!f.closed && (whence == 0 || whence == 1 || whence == 2) && old(seekBase(f, whence)) + offset >= 0 &&
+//@                       old(seekBase(f, whence)) + offset <= 9223372036854775807, err == nil)
+//@   ensures "fail-unchanged" implies(err != nil, r == 0 && f.offset == old(f.offset) && isPathError(err) && pathOf(err) == f.path)
+//@   nopanic
+
+//@ func (f *file) Stat() (info hackpadfs.FileInfo, err error)
+//@   props C02 C17
+//@   requires f != nil && f.fileData != nil
+//@   ensures "closed" implies(f.closed, info == nil && closedError(err, f))
+//@   ensures "info" implies(!f.closed, err == nil && isType(info, fileInfo) && info.(fileInfo).Path == f.path &&
+//@                     isType(info.(fileInfo).Record, *runOnceFileRecord) && info.(fileInfo).Record.(*runOnceFileRecord) == fRec(f))
+//@   nopanic
+
+// ---- write path ----
+
+//@ func (fs *FS) setFile(path string, file FileRecord) (err error)
+//@   props C14 C01
+//@   deterministic
+//@   requires fs != nil
+
+//@ func (f *fileData) save() (err error)
+//@   props C14
+//@   requires f != nil && f.fs != nil
+//@   modifies world()
+//@   ensures "saved" err == old(ret("keyvalue.(*FS).setFile", 0, f.fs, f.path, f)) && world() == old(worldAfter("keyvalue.(*FS).setFile", f.fs, f.path, f))
+//@   nopanic
+
+//@ func (f *file) updateModTime()
+//@   requires f != nil && f.fileData != nil
+//@   modifies f.fileData.modTimeOverride
+//@   ensures "nonzero" f.fileData.modTimeOverride != 0
+//@   nopanic
+
+//@ spec fIsDir(f *file) := ite(f.fileData.modeOverride != nil, *f.fileData.modeOverride, modeOf(fRec(f))) & hackpadfs.ModeDir != 0
+//@ spec canGrowSet(b blob.Blob) := implements(b, blob.GrowBlob) && implements(b, blob.SetBlob)
+//@ spec sameContent(b blob.Blob) := blob.blobLen(b) == old(blob.blobLen(b)) && forall(i, 0, blob.blobLen(b), blob.blobAt(b, i) == old(blob.blobAt(b, i)))
+
+//@ func (f *file) writeBlobAt(op string, p blob.Blob, off int64) (n int, err error)
+//@   props C02 C14
+//@   requires fileInv(f) && hDataOK(f) && blob.blobOK(p) && !blob.blobLocked(p)
+//@   requires "distinct-objects" implies(hDataErr(f) == nil && payload(p) == payload(hData(f)), tag(p) == tag(hData(f)))
+//@   requires "no-alias" implies(hDataErr(f) == nil && isType(p, *blob.Bytes) && isType(hData(f), *blob.Bytes), payload(p) != payload(hData(f)) &&
+//@                     (ref(p.(*blob.Bytes).bytes) != ref(hData(f).(*blob.Bytes).bytes) || ref(p.(*blob.Bytes).bytes) == 0))
+//@   requires "size-bound" off + blob.blobLen(p) <= 1<<40
+//@   modifies fRec(f).data, fRec(f).dataErr, fRec(f).dataDone, oncedone(fRec(f).dataOnce), fRec(f).mode, oncedone(fRec(f).modeOnce), f.fileData.modTimeOverride, world(),
+//@            hData(f).(*blob.Bytes).bytes, hData(f).(*blob.Bytes).length, elems(hData(f).(*blob.Bytes).bytes), gint("blobLen", payload(hData(f))), garr("blobAt", payload(hData(f)))
+//@   ensures "dir" implies(old(fIsDir(f)), n == 0 && isPathError(err) && errIs(err, hackpadfs.ErrIsDir) && pathOf(err) == f.path)
+//@   ensures "neg" implies(!old(fIsDir(f)) && off < 0, n == 0 && isPathError(err) && pathOf(err) == f.path)
+//@   ensures "data-error" implies(!old(fIsDir(f)) && off >= 0 && old(hDataErr(f)) != nil, n == 0 && isPathError(err) && innerErr(err) == old(hDataErr(f)))
+//@   ensures "count" implies(err == nil && old(canGrowSet(hData(f))), n == old(blob.blobLen(p)))
+//@   ensures "size" implies(err == nil && old(canGrowSet(hData(f))), blob.blobLen(old(hData(f))) == max(old(blob.blobLen(hData(f))), off + n))
+//@   ensures "written" implies(err == nil && old(canGrowSet(hData(f))), forall(i, 0, n, blob.blobAt(old(hData(f)), off + i) == old(blob.blobAt(p, i))))
+//@   ensures "others-kept" implies(err == nil && old(canGrowSet(hData(f))),
+//@                     forall(j, 0, old(blob.blobLen(hData(f))), implies(j < off || j >= off + n, blob.blobAt(old(hData(f)), j) == old(blob.blobAt(hData(f), j)))))
+//@   ensures "gap-zero" implies(err == nil && old(canGrowSet(hData(f))), forall(j, old(blob.blobLen(hData(f))), off, blob.blobAt(old(hData(f)), j) == 0))
+//@   ensures "same-blob" implies(old(hDataErr(f)) == nil && !old(fIsDir(f)) && off >= 0, hData(f) == old(hData(f)) && hDataErr(f) == nil)
+//@   ensures "n-range" 0 <= n && n <= old(blob.blobLen(p))
+//@   ensures "fail-unchanged" implies(err != nil && n == 0 && (old(fIsDir(f)) || off < 0 || old(hDataErr(f)) != nil), implies(old(hDataErr(f)) == nil, sameContent(old(hData(f)))))
+//@   ensures "inv" fileInv(f) && f.offset == old(f.offset) && f.closed == old(f.closed)
+//@   nopanic
+
+//@ spec isAppend(f *file) := f.flag&hackpadfs.FlagAppend != 0
+//@ spec writeAtPos(f *file) := ite(isAppend(f), liveSize(fRec(f)), f.offset)
+//@ spec pNoAlias(f *file, p blob.Blob) := implies(hDataErr(f) == nil && payload(p) == payload(hData(f)), tag(p) == tag(hData(f))) &&
+//@        implies(hDataErr(f) == nil && isType(p, *blob.Bytes) && isType(hData(f), *blob.Bytes), payload(p) != payload(hData(f)) &&
+//@                (ref(p.(*blob.Bytes).bytes) != ref(hData(f).(*blob.Bytes).bytes) || ref(p.(*blob.Bytes).bytes) == 0))
+
+//@ func (f *file) WriteBlob(p blob.Blob) (n int, err error)
+//@   props C02 C17 C14
+//@   requires fileInv(f) && hDataOK(f) && blob.blobOK(p) && !blob.blobLocked(p) && pNoAlias(f, p)
+//@   requires "size-bound" f.offset + blob.blobLen(p) <= 1<<40 && liveSize(fRec(f)) + blob.blobLen(p) <= 1<<40
+//@   modifies fRec(f).data, fRec(f).dataErr, fRec(f).dataDone, oncedone(fRec(f).dataOnce), fRec(f).mode, oncedone(fRec(f).modeOnce), f.fileData.modTimeOverride, world(), f.offset,
+//@            hData(f).(*blob.Bytes).bytes, hData(f).(*blob.Bytes).length, elems(hData(f).(*blob.Bytes).bytes), gint("blobLen", payload(hData(f))), garr("blobAt", payload(hData(f)))
+//@   ensures "closed" implies(f.closed, n == 0 && closedError(err, f) && f.offset == old(f.offset) && implies(old(hDataErr(f)) == nil, sameContent(old(hData(f)))))
+//@   ensures "dir" implies(!f.closed && old(fIsDir(f)), n == 0 && isPathError(err) && errIs(err, hackpadfs.ErrIsDir))
+//@   ensures "count" implies(err == nil, n == old(blob.blobLen(p)))
+//@   ensures "size" implies(err == nil, blob.blobLen(old(hData(f))) == max(old(blob.blobLen(hData(f))), old(writeAtPos(f)) + n))
+//@   ensures "written" implies(err == nil, forall(i, 0, n, blob.blobAt(old(hData(f)), old(writeAtPos(f)) + i) == old(blob.blobAt(p, i))))
+//@   ensures "others-kept" implies(err == nil, forall(j, 0, old(blob.blobLen(hData(f))), implies(j < old(writeAtPos(f)) || j >= old(writeAtPos(f)) + n, blob.blobAt(old(hData(f)), j) == old(blob.blobAt(hData(f), j)))))
+//@   ensures "gap-zero" implies(err == nil, forall(j, old(blob.blobLen(hData(f))), old(writeAtPos(f)), blob.blobAt(old(hData(f)), j) == 0))
+//@   ensures "offset" implies(!f.closed, f.offset == old(writeAtPos(f)) + n)
+//@   ensures "append-lands-at-end" implies(err == nil && old(isAppend(f)) && old(hDataErr(f)) == nil && old(liveSize(fRec(f))) == old(blob.blobLen(hData(f))), old(writeAtPos(f)) == old(blob.blobLen(hData(f))) && f.offset == blob.blobLen(old(hData(f))))
+//@   ensures "inv" fileInv(f) && f.closed == old(f.closed)
+//@   nopanic
+
+//@ spec sizeConsistent(f *file) := implies(hDataErr(f) == nil, liveSize(fRec(f)) == blob.blobLen(hData(f)))
+
+//@ func (f *file) WriteBlobAt(p blob.Blob, off int64) (n int, err error)
+//@   props C02 C17 C14
+//@   requires fileInv(f) && hDataOK(f) && blob.blobOK(p) && !blob.blobLocked(p) && pNoAlias(f, p)
+//@   requires "size-bound" off + blob.blobLen(p) <= 1<<40
+//@   modifies fRec(f).data, fRec(f).dataErr, fRec(f).dataDone, oncedone(fRec(f).dataOnce), fRec(f).mode, oncedone(fRec(f).modeOnce), f.fileData.modTimeOverride, world(),
+//@            hData(f).(*blob.Bytes).bytes, hData(f).(*blob.Bytes).length, elems(hData(f).(*blob.Bytes).bytes), gint("blobLen", payload(hData(f))), garr("blobAt", payload(hData(f)))
+//@   ensures "closed" implies(f.closed, n == 0 && closedError(err, f) && implies(old(hDataErr(f)) == nil, sameContent(old(hData(f)))))
+//@   ensures "append-refused" implies(!f.closed && isAppend(f), n == 0 && isPathError(err) && pathOf(err) == f.path && implies(old(hDataErr(f)) == nil, sameContent(old(hData(f)))))
+//@   ensures "neg" implies(!f.closed && !isAppend(f) && off < 0, n == 0 && err != nil && implies(old(hDataErr(f)) == nil, sameContent(old(hData(f)))))
+//@   ensures "count" implies(err == nil, n == old(blob.blobLen(p)))
+//@   ensures "size" implies(err == nil, blob.blobLen(old(hData(f))) == max(old(blob.blobLen(hData(f))), off + n))
+//@   ensures "written" implies(err == nil, forall(i, 0, n, blob.blobAt(old(hData(f)), off + i) == old(blob.blobAt(p, i))))
+//@   ensures "others-kept" implies(err == nil, forall(j, 0, old(blob.blobLen(hData(f))), implies(j < off || j >= off + n, blob.blobAt(old(hData(f)), j) == old(blob.blobAt(hData(f), j)))))
+//@   ensures "gap-zero" implies(err == nil, forall(j, old(blob.blobLen(hData(f))), off, blob.blobAt(old(hData(f)), j) == 0))
+//@   ensures "inv" fileInv(f) && f.offset == old(f.offset) && f.closed == old(f.closed)
+//@   nopanic
+
+//@ func (f *file) Truncate(size int64) (err error)
+//@   props C02 C17 C14
+//@   requires fileInv(f) && hDataOK(f) && sizeConsistent(f)
+//@   requires "size-bound" size <= 1<<40
+//@   modifies fRec(f).data, fRec(f).dataErr, fRec(f).dataDone, oncedone(fRec(f).dataOnce), fRec(f).mode, oncedone(fRec(f).modeOnce), f.fileData.modTimeOverride, world(),
+//@            hData(f).(*blob.Bytes).bytes, hData(f).(*blob.Bytes).length, elems(hData(f).(*blob.Bytes).bytes), gint("blobLen", payload(hData(f))), garr("blobAt", payload(hData(f)))
+//@   ensures "closed" implies(f.closed, closedError(err, f) && implies(old(hDataErr(f)) == nil, sameContent(old(hData(f)))))
+//@   ensures "dir" implies(!f.closed && old(fIsDir(f)), isPathError(err) && errIs(err, hackpadfs.ErrIsDir) && pathOf(err) == f.path && implies(old(hDataErr(f)) == nil, sameContent(old(hData(f)))))
+//@   ensures "neg" implies(!f.closed && !old(fIsDir(f)) && size < 0, isPathError(err) && errIs(err, hackpadfs.ErrInvalid) && implies(old(hDataErr(f)) == nil, sameContent(old(hData(f)))))
+//@   ensures "content" implies(err == nil && old(hDataErr(f)) == nil, blob.blobLen(old(hData(f))) == size &&
+//@                     forall(i, 0, min(size, old(blob.blobLen(hData(f)))), blob.blobAt(old(hData(f)), i) == old(blob.blobAt(hData(f), i))) &&
+//@                     forall(i, old(blob.blobLen(hData(f))), size, blob.blobAt(old(hData(f)), i) == 0))
+//@   ensures "inv" fileInv(f) && f.offset == old(f.offset) && f.closed == old(f.closed)
+//@   nopanic
+
+//@ func (f *file) Chmod(mode hackpadfs.FileMode) (err error)
+//@   props C17 C14 C01
+//@   requires f != nil && f.fileData != nil && f.fileData.fs != nil && f.fileData.record != nil
+//@   modifies fRec(f).mode, oncedone(fRec(f).modeOnce), f.fileData.modeOverride, world()
+//@   ensures "closed" implies(f.closed, closedError(err, f) && f.fileData.modeOverride == old(f.fileData.modeOverride) && world() == old(world()))
+//@   ensures "bits" implies(!f.closed, f.fileData.modeOverride != nil &&
+//@                     *f.fileData.modeOverride == (old(ite(f.fileData.modeOverride != nil, *f.fileData.modeOverride, modeOf(fRec(f)))) & ^chmodBits) | (mode & chmodBits))
+//@   nopanic
+
+//@ func newDirEntry(fs hackpadfs.FS, basePath string, name string) (d *dirEntry, err error)
+//@   props C16
+//@   requires fs != nil
+//@   modifies world()
+//@   ensures "entry" d != nil && fresh(d) && d.baseName == name && d.info == old(ret("hackpadfs.Stat", 0, fs, pathJoin(basePath, name))) &&
+//@                   err == old(ret("hackpadfs.Stat", 1, fs, pathJoin(basePath, name))) && world() == old(worldAfter("hackpadfs.Stat", fs, pathJoin(basePath, name)))
+//@   nopanic
+
+//@ spec hNames(f *file) := ite(oncedone(fRec(f).dirNamesOnce), fRec(f).dirNames, dirNamesOf(fRec(f)))
+//@ spec hNamesErr(f *file) := ite(oncedone(fRec(f).dirNamesOnce), fRec(f).dirNamesErr, dirNamesErrOf(fRec(f)))
+//@ spec pageStart(f *file) := min(f.offset, len(hNames(f)))
+//@ spec pageEnd(f *file, n int) := ite(n > 0 && n < len(hNames(f)) - pageStart(f), pageStart(f) + n, len(hNames(f)))
+
+//@ func (f *file) ReadDir(n int) (entries []hackpadfs.DirEntry, err error)
+//@   props C16 C17 C14
+//@   requires fileInv(f)
+//@   modifies fRec(f).dirNames, fRec(f).dirNamesErr, oncedone(fRec(f).dirNamesOnce), world(), f.offset
+//@   loop 1 invariant "page" rangeindex >= -1 && rangeindex < max(end - start, 1) && (end - start > 0 || rangeindex == -1) && len(entries) == rangeindex + 1 &&
+//@                      (ref(entries) == 0 || fresh(entries)) && start == old(pageStart(f)) && end == old(pageEnd(f, n)) && dirNames == old(hNames(f)) && f.offset == old(f.offset) && !f.closed &&
+//@                      forall(i, 0, len(entries), isType(entries[i], *dirEntry) && entries[i].(*dirEntry) != nil && entries[i].(*dirEntry).baseName == dirNames[start + i])
+//@   ensures "closed" implies(f.closed, entries == nil && closedError(err, f) && f.offset == old(f.offset))
+//@   ensures "names-error" implies(!f.closed && old(hNamesErr(f)) != nil, entries == nil && isPathError(err) && pathOf(err) == f.path && innerErr(err) == old(hNamesErr(f)) && f.offset == old(f.offset))
+//@   ensures "eof" implies(!f.closed && old(hNamesErr(f)) == nil && n > 0 && old(f.offset) >= len(old(hNames(f))), len(entries) == 0 && err == io.EOF)
+//@   ensures "page" implies(err == nil, len(entries) == old(pageEnd(f, n)) - old(pageStart(f)) && f.offset == old(pageEnd(f, n)) &&
+//@                     forall(i, 0, len(entries), isType(entries[i], *dirEntry) && entries[i].(*dirEntry).baseName == old(hNames(f))[old(pageStart(f)) + i]))
+//@   ensures "nonempty-or-eof" implies(!f.closed && n > 0 && old(hNamesErr(f)) == nil && err == nil, len(entries) > 0)
+//@   ensures "all" implies(!f.closed && n <= 0 && old(hNamesErr(f)) == nil && err == nil, len(entries) == len(old(hNames(f))) - old(pageStart(f)))
+//@   nopanic
+
+//@ spec bufNoAlias(f *file, p []byte) := implies(hDataErr(f) == nil, ref(p) != ref(hData(f).(*blob.Bytes).bytes) || ref(p) == 0)
+
+//@ func (f *file) Write(p []byte) (n int, err error)
+//@   props C02 C17 C14
+//@   requires fileInv(f) && hDataOK(f) && bufNoAlias(f, p)
+//@   requires "size-bound" f.offset + len(p) <= 1<<40 && liveSize(fRec(f)) + len(p) <= 1<<40
+//@   modifies fRec(f).data, fRec(f).dataErr, fRec(f).dataDone, oncedone(fRec(f).dataOnce), fRec(f).mode, oncedone(fRec(f).modeOnce), f.fileData.modTimeOverride, world(), f.offset,
+//@            hData(f).(*blob.Bytes).bytes, hData(f).(*blob.Bytes).length, elems(hData(f).(*blob.Bytes).bytes), gint("blobLen", payload(hData(f))), garr("blobAt", payload(hData(f)))
+//@   ensures "closed" implies(f.closed, n == 0 && closedError(err, f) && f.offset == old(f.offset) && implies(old(hDataErr(f)) == nil, sameContent(old(hData(f)))))
+//@   ensures "dir" implies(!f.closed && old(fIsDir(f)), n == 0 && isPathError(err) && errIs(err, hackpadfs.ErrIsDir))
+//@   ensures "count" implies(err == nil, n == len(p))
+//@   ensures "size" implies(err == nil, blob.blobLen(old(hData(f))) == max(old(blob.blobLen(hData(f))), old(writeAtPos(f)) + n))
+//@   ensures "written" implies(err == nil, forall(i, 0, n, blob.blobAt(old(hData(f)), old(writeAtPos(f)) + i) == old(p[i])))
+//@   ensures "others-kept" implies(err == nil, forall(j, 0, old(blob.blobLen(hData(f))), implies(j < old(writeAtPos(f)) || j >= old(writeAtPos(f)) + n, blob.blobAt(old(hData(f)), j) == old(blob.blobAt(hData(f), j)))))
+//@   ensures "gap-zero" implies(err == nil, forall(j, old(blob.blobLen(hData(f))), old(writeAtPos(f)), blob.blobAt(old(hData(f)), j) == 0))
+//@   ensures "offset" implies(!f.closed, f.offset == old(writeAtPos(f)) + n)
+//@   ensures "inv" fileInv(f) && f.closed == old(f.closed)
+//@   nopanic
+
+//@ func (f *file) WriteAt(p []byte, off int64) (n int, err error)
+//@   props C02 C17 C14
+//@   requires fileInv(f) && hDataOK(f) && bufNoAlias(f, p)
+//@   requires "size-bound" off + len(p) <= 1<<40
+//@   modifies fRec(f).data, fRec(f).dataErr, fRec(f).dataDone, oncedone(fRec(f).dataOnce), fRec(f).mode, oncedone(fRec(f).modeOnce), f.fileData.modTimeOverride, world(),
+//@            hData(f).(*blob.Bytes).bytes, hData(f).(*blob.Bytes).length, elems(hData(f).(*blob.Bytes).bytes), gint("blobLen", payload(hData(f))), garr("blobAt", payload(hData(f)))
+//@   ensures "closed" implies(f.closed, n == 0 && closedError(err, f) && implies(old(hDataErr(f)) == nil, sameContent(old(hData(f)))))
+//@   ensures "append-refused" implies(!f.closed && isAppend(f), n == 0 && err != nil && implies(old(hDataErr(f)) == nil, sameContent(old(hData(f)))))
+//@   ensures "neg" implies(!f.closed && !isAppend(f) && off < 0, n == 0 && err != nil && implies(old(hDataErr(f)) == nil, sameContent(old(hData(f)))))
+//@   ensures "count" implies(err == nil, n == len(p))
+//@   ensures "size" implies(err == nil, blob.blobLen(old(hData(f))) == max(old(blob.blobLen(hData(f))), off + n))
+//@   ensures "written" implies(err == nil, forall(i, 0, n, blob.blobAt(old(hData(f)), off + i) == old(p[i])))
+//@   ensures "others-kept" implies(err == nil, forall(j, 0, old(blob.blobLen(hData(f))), implies(j < off || j >= off + n, blob.blobAt(old(hData(f)), j) == old(blob.blobAt(hData(f), j)))))
+//@   ensures "gap-zero" implies(err == nil, forall(j, old(blob.blobLen(hData(f))), off, blob.blobAt(old(hData(f)), j) == 0))
+//@   ensures "inv" fileInv(f) && f.offset == old(f.offset) && f.closed == old(f.closed)
+//@   nopanic
+
+// ---- access-mode wrappers (file_rwonly.go) ----
+
+//@ type readOnlyFile lacks io.Writer io.WriterAt blob.Writer blob.WriterAt props=C02
+//@ type writeOnlyFile lacks io.ReaderAt blob.Reader blob.ReaderAt hackpadfs.DirReaderFile props=C02
+
+//@ spec roInvW(r *readOnlyFile) := r != nil && fileInv(r.file) && hDataOK(r.file)
+//@ spec roSame(r *readOnlyFile) := implies(old(hDataErr(r.file)) == nil, sameContent(old(hData(r.file))))
+
+//@ func (r *readOnlyFile) Read(p []byte) (n int, err error)
+//@   props C02 C17
+//@   requires roInvW(r) && bufNoAlias(r.file, p)
+//@   modifies r.file.fileData.runOnceFileRecord.data, r.file.fileData.runOnceFileRecord.dataErr, r.file.fileData.runOnceFileRecord.dataDone, oncedone(r.file.fileData.runOnceFileRecord.dataOnce), world(), elems(p), r.file.offset
+//@   ensures "ro-immutable" roSame(r)
+//@   ensures "closed" implies(old(r.file.closed), closedError(err, r.file))
+//@   nopanic
+
+//@ func (r *readOnlyFile) ReadBlob(length int) (b blob.Blob, n int, err error)
+//@   props C02 C17
+//@   requires roInvW(r)
+//@   modifies r.file.fileData.runOnceFileRecord.data, r.file.fileData.runOnceFileRecord.dataErr, r.file.fileData.runOnceFileRecord.dataDone, oncedone(r.file.fileData.runOnceFileRecord.dataOnce), world(), r.file.offset
+//@   ensures "ro-immutable" roSame(r)
+//@   ensures "closed" implies(old(r.file.closed), closedError(err, r.file))
+//@   nopanic
+
+//@ func (r *readOnlyFile) ReadAt(p []byte, off int64) (n int, err error)
+//@   props C02 C17
+//@   requires roInvW(r) && bufNoAlias(r.file, p)
+//@   modifies r.file.fileData.runOnceFileRecord.data, r.file.fileData.runOnceFileRecord.dataErr, r.file.fileData.runOnceFileRecord.dataDone, oncedone(r.file.fileData.runOnceFileRecord.dataOnce), world(), elems(p)
+//@   ensures "ro-immutable" roSame(r)
+//@   ensures "closed" implies(old(r.file.closed), closedError(err, r.file))
+//@   nopanic
+
+//@ func (r *readOnlyFile) ReadBlobAt(length int, off int64) (b blob.Blob, n int, err error)
+//@   props C02 C17
+//@   requires roInvW(r)
+//@   modifies r.file.fileData.runOnceFileRecord.data, r.file.fileData.runOnceFileRecord.dataErr, r.file.fileData.runOnceFileRecord.dataDone, oncedone(r.file.fileData.runOnceFileRecord.dataOnce), world()
+//@   ensures "ro-immutable" roSame(r)
+//@   ensures "closed" implies(old(r.file.closed), closedError(err, r.file))
+//@   nopanic
+
+//@ func (r *readOnlyFile) Seek(offset int64, whence int) (pos int64, err error)
+//@   props C02 C17
+//@   requires roInvW(r)
+//@   modifies r.file.offset
+//@   ensures "ro-immutable" roSame(r)
+//@   ensures "closed" implies(old(r.file.closed), closedError(err, r.file))
+//@   nopanic
+
+//@ func (r *readOnlyFile) Stat() (info hackpadfs.FileInfo, err error)
+//@   props C02 C17
+//@   requires roInvW(r)
+//@   ensures "ro-immutable" roSame(r)
+//@   ensures "closed" implies(old(r.file.closed), closedError(err, r.file))
+//@   nopanic
+
+//@ func (r *readOnlyFile) Close() (err error)
+//@   props C02 C17
+//@   requires roInvW(r)
+//@   modifies r.file.closed
+//@   ensures "ro-immutable" roSame(r)
+//@   ensures "closed" implies(old(r.file.closed), closedError(err, r.file))
+//@   nopanic
+
+//@ func (r *readOnlyFile) Truncate(size int64) (err error)
+//@   props C02 C17
+//@   requires roInvW(r)
+//@   ensures "refused" err != nil && isPathError(err) && pathOf(err) == r.file.path
+//@   ensures "ro-immutable" roSame(r)
+//@   ensures "closed" implies(r.file.closed, closedError(err, r.file))
+//@   nopanic
+
+//@ spec woInvW(w *writeOnlyFile) := w != nil && w.file != nil && w.file.fileData != nil
+
+//@ func (w *writeOnlyFile) Read(p []byte) (n int, err error)
+//@   props C02
+//@   requires woInvW(w)
+//@   ensures "never-reads" n == 0 && err != nil && isPathError(err) && pathOf(err) == w.file.path
+//@   nopanic
+
